@@ -1171,6 +1171,20 @@ pub fn c14(em: &mut Emit, thorough: bool, seed: u64) {
 // ---------------------------------------------------------------------------------------
 // C15 (serve part; the streaming_body part is in suites_neg)
 
+/// Header lines an entity's `add_headers` might supply under names `serve` uses itself.
+pub const COLLIDING_ENTITY_HEADERS: [(&str, &[u8]); 10] = [
+    ("content-length", b"240"),
+    ("content-length", b"7"),
+    ("content-range", b"bytes 0-0/1"),
+    ("etag", b"\"other\""),
+    ("date", b"Thu, 01 Jan 1970 00:00:00 GMT"),
+    ("last-modified", b"Thu, 01 Jan 1970 00:00:00 GMT"),
+    ("vary", b"accept-encoding"),
+    ("accept-ranges", b"none"),
+    ("content-encoding", b"gzip"),
+    ("content-type", b"multipart/byteranges; boundary=X"),
+];
+
 pub fn c15_requests(rng: &mut Rng, n: usize) -> Vec<(HReq, HEntity)> {
     let mut v = vec![];
     let ranges: [Option<&[u8]>; 9] = [
@@ -1199,6 +1213,14 @@ pub fn c15_requests(rng: &mut Rng, n: usize) -> Vec<(HReq, HEntity)> {
         }
         if rng.chance(1, 2) {
             e.headers = vec![("x-ent-a".into(), b"v".to_vec())];
+        }
+        // an entity that supplies a header line under a name `serve` sets itself (appended, as
+        // every header of the harness entity is): both requests must carry both lines
+        if rng.chance(1, 4) {
+            for _ in 0..1 + rng.usize(2) {
+                let (n, v) = *rng.pick(&COLLIDING_ENTITY_HEADERS);
+                e.headers.push((n.into(), v.to_vec()));
+            }
         }
         let mut q = HReq::get();
         q.range = rng.pick(&ranges).map(|r| r.to_vec());
